@@ -192,6 +192,7 @@ func (e *recExporter) ExportSpans(ctx context.Context, spans []sdktrace.ReadOnly
 		}
 		atomic.AddInt64(&e.timedOut, 1)
 	}
+	e.sched.Arrive("x@exp.end") // second gate of the exporter (directed schedules only): hold a begun export
 	e.tw.Emit(map[string]any{"ev": "ExportEnd", "sc": e.sc, "err": errClass(err)})
 	return err
 }
@@ -523,6 +524,10 @@ func runScenario(scn int, sc Scenario, tw *vh.TraceWriter, res *vh.Result) {
 	followed, desync, remaining := sched.Stats()
 	res.Count("script_steps_followed", int64(followed))
 	res.Count("script_steps_desync", int64(desync+remaining))
+	if sc.Script != nil && sc.Name != "" {
+		res.Count("followed:"+sc.Name, int64(followed))
+		res.Count("desync:"+sc.Name, int64(desync+remaining))
+	}
 	for _, k := range sched.Skipped {
 		if i := strings.Index(k, "@"); i >= 0 {
 			res.Count("desync@"+strings.SplitN(strings.SplitN(k[i+1:], ":", 2)[0], "/", 2)[0], 1)
